@@ -34,7 +34,7 @@ pub fn gen(seed: u64, tier: Tier, k: u64) -> Value {
             sort: None,
             unique_keys: false,
         };
-        let dir = DirCase { seed: rng.next(), vstores: vec![rng.chance(1, 2)], stores: vec![st], indexes: vec![IndexDef { name: "i".into(), store: 0, offset: 0, count: n as u32 }] };
+        let dir = DirCase { seed: rng.next(), vstores: vec![rng.chance(1, 2)], stores: vec![st], indexes: vec![IndexDef { name: "i".into(), store: 0, offset: 0, count: n as u32 }], defer: 0 };
         return json!({"source": source, "dir": dir.to_json(), "ops_seed": rng.next()});
     }
     let comp = match source {
@@ -55,7 +55,7 @@ pub fn gen(seed: u64, tier: Tier, k: u64) -> Value {
             _ => rng.range(40, 20_000) as usize,
         };
         let hint = if source == "decoded" { Hint::Yes } else { Hint::No };
-        items.push(Item { len, ent: *rng.pick(&[Ent::Low4, Ent::Mid6, Ent::High]), hint, src: Src::Mem, dup_of: None });
+        items.push(Item { len, ent: *rng.pick(&[Ent::Low4, Ent::Mid6, Ent::High]), hint, src: Src::Mem, dup_of: None, cat_of: None });
     }
     let case = ContentCase { seed: rng.next(), comp, cached: false, items };
     json!({"source": source, "content": case.to_json(), "ops_seed": rng.next()})
